@@ -239,7 +239,7 @@ def _conforms_shallow(S, t, v):
 def py_conforms(S, t, v, cons=None, top=True) -> bool:
     """the generator's validity rules as a checker (used to keep shrinking inside spec-valid inputs)"""
     k = t["k"]
-    if k == "any":
+    if k in ("any", "unknown"):
         return not (top and v is None)
     if k == "opt":
         return v is not None and py_conforms(S, t["t"], v, cons, top)
@@ -428,6 +428,16 @@ class ModelCases(Suite):
                             continue
                         w[G.wire(f)] = G.with_str(f["ty"], ival, "int")
                         out.append({"cls": cid, "mode": "magic", "wire": w})
+            # members whose declared type the translator does not know: every plausible wire form, directed
+            for f in S[cid]["fields"]:
+                if '"unknown"' in core.canon(f["ty"]):
+                    for sval in schema_gen.WIRE_SCALARS + [7, 0.5, True, {"a": 1}, ["x"]]:
+                        v = G.with_str(f["ty"], sval, "any")
+                        if v is None:
+                            break
+                        w = G.obj(cid, rng, present={f["name"]}, extras="none")
+                        w[G.wire(f)] = v
+                        out.append({"cls": cid, "mode": "untranslated-member", "wire": w})
             # LIMITS: every integer literal of the class's module (with its neighbours N-1, N, N+1) as the
             # length of every list / string / free-form object member and as the value of every number
             # member (the latter through the magic ints above) — spec-valid ones only: what a documented
